@@ -26,7 +26,13 @@ MY_GEN = {"RuleChecks", "Registry", "Lists", "Dict", "LexTables", "Catalogue", "
 # check class -> Coq function
 MODELLED = {"CheckTernary": "check_ternary", "CheckLineLen": "check_line_len", "CheckLabel": "check_label",
             "CheckManyInstructions": "check_many_instructions", "CheckEmptyLine": "check_empty_line",
-            "CheckLineIndent": "check_line_indent", "CheckSpacing": "check_spacing"}
+            "CheckLineIndent": "check_line_indent", "CheckSpacing": "check_spacing",
+            # second batch (Gen/MoreChecks.v); the first is a slice that also takes context.file.type
+            "CheckUtypeDeclaration": "(fun t s v => check_utype_forbidden t s ft v)", "CheckExpressionStatement": "check_expression_statement",
+            "CheckControlStatement": "check_control_statement"}
+# slices: only these codes are emitted by the translated part (Gen: check_*_codes); an exception of the untranslated rest is not compared
+SLICE_CODES = {"CheckUtypeDeclaration": {"TYPE_NOT_GLOBAL", "FORBIDDEN_STRUCT", "FORBIDDEN_UNION", "FORBIDDEN_ENUM", "FORBIDDEN_TYPEDEF"},
+               "CheckControlStatement": {"WRONG_SCOPE", "EXP_NEWLINE", "FORBIDDEN_CS", "ASSIGN_IN_CONTROL"}}
 CHECK_IDS = sorted(MODELLED)
 EXN = {k: k for k in ("AttributeError", "IndexError", "TypeError", "KeyError", "UnboundLocalError", "RecursionError", "AssertionError")}
 
@@ -64,7 +70,7 @@ def _install_probe():
                 seen += 1
         if n - lo < 3:
             lo = max(0, n - 3)
-        item = {"check": name, "ntoks": len(toks0), "scope": context.tkn_scope, "hlen": n,
+        item = {"check": name, "ntoks": len(toks0), "scope": context.tkn_scope, "hlen": n, "ftype": context.file.type,
                 "hist": [h.name for h in reversed(hist[lo:])], "hist_cut": lo > 0,
                 "sname": sc.name, "glob": type(sc) is GlobalScope, "indent": sc.indent,
                 "ia": bool(sc.include_allowed), "va": bool(sc.vdeclarations_allowed), "oc": 0}
@@ -103,7 +109,10 @@ def _install_probe():
                 cut = False
             item["win"], item["cut"], item["maxread"] = win, cut, reads[0]
             item["line0"] = win[0][1] if win else None
-            item["em"] = [(e.name, e.highlights[0].lineno, e.highlights[0].column) for e in inner[before:]]
+            item["em"] = [(e.name, e.highlights[0].lineno, e.highlights[0].column) for e in inner[before:]
+                          if name not in SLICE_CODES or e.name in SLICE_CODES[name]]
+            if name in SLICE_CODES and item["oc"] != 0:
+                item["skip"] = True          # the exception may come from the untranslated rest of the method
             item["ia2"], item["va2"] = bool(sc.include_allowed), bool(sc.vdeclarations_allowed)
             rec.append(item)
     rr._c02 = True
@@ -163,13 +172,13 @@ def coq_cases_text(cases, types, rules, codes):
     The window is exact: it holds every position the implementation read (recorded through peek_token), and the last
     token of the file for the index -1; when the history is cut, at least three entries and the newest three that
     CheckLineIndent does not skip are kept (the len(history) tests of the checks compare with 1 only)."""
-    o = ["From NV Require Import Model.Base Model.RuleChecks Gen.RuleChecks.\nOpen Scope Z_scope.\n"]
+    o = ["From NV Require Import Model.Base Model.RuleChecks Gen.RuleChecks Gen.MoreChecks.\nOpen Scope Z_scope.\n"]
     o.append("Definition tys : list str := [%s].\n" % "; ".join('s "%s"' % t for t in types))
     o.append("Definition rls : list str := [%s].\n" % "; ".join('s "%s"' % t for t in rules))
     o.append("Definition cds : list str := [%s].\n" % "; ".join('s "%s"' % t for t in codes))
     o.append("Definition T (k : nat) (l c : Z) : token := mk_tok (nth k tys []) l c.\n")
     o.append("Definition R (k : nat) : str := nth k rls [].\nDefinition C (k : nat) (l c : Z) : em := (nth k cds [], l, c).\n")
-    o.append("Definition run_check (k : nat) := match k with %s | _ => check_ternary end.\n" % " | ".join(
+    o.append("Definition run_check (k : nat) (ft : str) := match k with %s | _ => check_ternary end.\n" % " | ".join(
         "%d%%nat => %s" % (i, MODELLED[c]) for i, c in enumerate(CHECK_IDS)))
     ti = {t: i for i, t in enumerate(types)}
     ri = {t: i for i, t in enumerate(rules)}
@@ -178,18 +187,18 @@ def coq_cases_text(cases, types, rules, codes):
     o.append("Definition agrees_x (r : result) (oc : Z) (ex : exn) (E : list em) (ia va : bool) : bool :=\n"
              "  match r with Crash e => (oc =? 2) && exn_eqb e ex | _ => agrees r oc E ia va end.\n")
     o.append("Definition one (id : Z) (toks : list token) (cut : bool) (hist : list str) (ck : nat) (scope : Z) (sname : str) (glob : bool) (indent : Z)\n"
-             "  (ia va : bool) (oc : Z) (ex : exn) (E : list em) (ia2 va2 : bool) : list Z :=\n"
+             "  (ia va : bool) (oc : Z) (ex : exn) (E : list em) (ia2 va2 : bool) (ft : str) : list Z :=\n"
              "  let v := mkview hist sname glob indent ia va in\n"
-             "  if agrees_x (run_check ck toks scope v) oc ex E ia2 va2 then [] else [id].\n")
+             "  if agrees_x (run_check ck ft toks scope v) oc ex E ia2 va2 then [] else [id].\n")
     o.append("Definition results : list Z := List.concat [\n")
     lines = []
     b = lambda x: "true" if x else "false"  # noqa
     for cid, r in enumerate(cases):
-        lines.append(" one %d [%s] %s [%s] %d (%d) (s \"%s\") %s (%d) %s %s %d %s [%s] %s %s" % (
+        lines.append(" one %d [%s] %s [%s] %d (%d) (s \"%s\") %s (%d) %s %s %d %s [%s] %s %s (s \"%s\")" % (
             cid, "; ".join("T %d %d %d" % (ti[t], l, c) for t, l, c in r["win"]), b(r["cut"]),
             "; ".join("R %d" % ri[h] for h in r["hist"]), CHECK_IDS.index(r["check"]), r["scope"], r["sname"], b(r["glob"]),
             r["indent"], b(r["ia"]), b(r["va"]), r["oc"], EXN.get(r.get("exc"), "Unmodelled"), "; ".join("C %d %d %d" % (ci[c], l, k) for c, l, k in r["em"]),
-            b(r["ia2"]), b(r["va2"])))
+            b(r["ia2"]), b(r["va2"]), r.get("ftype", ".c")))
     o.append(";\n".join(lines) + "].\nEval vm_compute in results.\n")
     return "".join(o)
 
@@ -230,6 +239,8 @@ def correspondence(run, probes, rnd, max_cases, per_file=500):
     nloud = nall = 0
     for pi, (src, name, meta, recs) in enumerate(probes):
         for rec in recs:
+            if rec.get("skip"):
+                continue
             cls = 0 if (rec["em"] or rec["oc"] != 0) else (1 if (rec["ia"] != rec["ia2"] or rec["va"] != rec["va2"]) else 2)
             per.setdefault(rec["check"], [[], [], []])[cls].append((pi, rec))
             nall += 1
